@@ -16,4 +16,7 @@ def check(ctx, rep):
     tok.tok_6(ctx, rep)
     tok.tok_7(ctx, rep)
     tok.tok_9(ctx, rep)
+    # no state outlives a call: no shared write reachable from the entry points of this property
+    from ..rules import eff as _eff
+    _eff.eff_1(ctx, rep, only=[('parso/python/tokenize.py', 'tokenize'), ('parso/python/tokenize.py', 'tokenize_lines'), ('parso/grammar.py', 'PythonGrammar._tokenize_lines'), ('parso/grammar.py', 'PythonGrammar._tokenize')], minimum=5)
     rep.note('Not decided: true positions.')
